@@ -378,6 +378,12 @@ pub struct RunCfg {
     pub fifo_bias: usize,
     pub custom_which: bool,
     pub max_polls: usize,
+    /// microseconds to let pass before opening a gate (0 = none); lets retry deadlines expire
+    /// while other scenarios are still in flight
+    pub gate_delay_us: u64,
+    /// explicit environment moves taken (in order) before falling back to the PRNG:
+    /// 0 = open the oldest waiting gate, 1 = wake the parser
+    pub env_script: Vec<u8>,
 }
 
 impl Default for RunCfg {
@@ -396,6 +402,8 @@ impl Default for RunCfg {
             fifo_bias: 0,
             custom_which: false,
             max_polls: 2_000_000,
+            gate_delay_us: 0,
+            env_script: vec![],
         }
     }
 }
@@ -527,6 +535,7 @@ where
     let mut ended = false;
     let mut stuck = false;
     let mut idle_since: Option<Instant> = None;
+    let mut script = cfg.env_script.iter().copied();
     loop {
         polls += 1;
         if polls > cfg.max_polls {
@@ -550,7 +559,13 @@ where
                 // Progress = anything was logged during this poll (probe, callback).
                 // (With the `tracing` feature the runner self-wakes on every poll while scenarios
                 // run, so "woken" alone does not mean progress.)
-                let progressed = with(|c| c.log.len()) != before;
+                // Lines of an idle loop iteration (the runner polling an unfinished parser) are not
+                // progress either: the environment has to move.
+                let progressed = with(|c| {
+                    c.log[before..].iter().any(|l| {
+                        !(l.starts_with("GET1 ") || (l.starts_with("GET2 ") && l.contains("got=[]")) || l.starts_with("IDLE ") || l == "P pend")
+                    })
+                });
                 if progressed {
                     idle_since = None;
                     continue;
@@ -563,8 +578,15 @@ where
                 let n_choices = waiting.len() + usize::from(parser_waiting);
                 if n_choices > 0 {
                     idle_since = None;
-                    let pick = if !waiting.is_empty() && rng.chance(cfg.fifo_bias, 8) { 0 } else { rng.below(n_choices) };
+                    let pick = match script.next() {
+                        Some(0) if !waiting.is_empty() => 0,
+                        Some(1) if parser_waiting => waiting.len(),
+                        _ => if !waiting.is_empty() && rng.chance(cfg.fifo_bias, 8) { 0 } else { rng.below(n_choices) },
+                    };
                     if pick < waiting.len() {
+                        if cfg.gate_delay_us > 0 && rng.chance(1, 3) {
+                            std::thread::sleep(Duration::from_micros(cfg.gate_delay_us));
+                        }
                         let g = waiting[pick];
                         log(format!("GATE open {g}"));
                         let w = with(|c| {
